@@ -35,6 +35,37 @@ def in_domain(okw, src):
     return "preserve" not in src and "force_default" not in okw
 
 
+def mode_class(rng):
+    """fields whose visibility depends on the mode in more than one way at once: mode= together with a mode-string (or True)
+    no_output / no_input / required, under a class mode that may be in neither"""
+    for _ in range(30):
+        name = dyn.fresh("Md")
+        cm = rng.choice([None, "r", "w", "a", "a", "w"])
+        lines = ["class %s(Schema):" % name]
+        okw = {"mode": cm} if cm else {}
+        if okw:
+            lines.append("    __options__ = Options(mode=%r)" % cm)
+        lines.append("    k: int")
+        fields = [dict(attname="k", type="int", aliases=["k"], ci=False, theme="modes")]
+        ms = lambda: rng.choice(["r", "w", "a", "rw", "ra", "wa"])
+        for fn in ["x", "y", "z"][:rng.randint(1, 3)]:
+            kw = []
+            if rng.random() < 0.7: kw.append("default=%s" % rng.choice(["0", "7"]))
+            if rng.random() < 0.7: kw.append("mode=%r" % ms())
+            if rng.random() < 0.6: kw.append("no_output=%r" % rng.choice([ms(), ms(), True]))
+            if rng.random() < 0.3: kw.append("no_input=%r" % rng.choice([ms(), True]))
+            if not any(k.startswith("default") for k in kw) and rng.random() < 0.6: kw.append("required=%r" % rng.choice([False, ms()]))
+            lines.append("    %s: int = Field(%s)" % (fn, ", ".join(kw)) if kw else "    %s: int" % fn)
+            fields.append(dict(attname=fn, type="int", aliases=[fn], ci=False, theme="modes"))
+        src = "\n".join(lines) + "\n"
+        try:
+            dyn.declare(src)
+            return name, src, fields, okw
+        except Exception:
+            continue
+    raise RuntimeError("could not declare a mode class")
+
+
 def mkrule(rng):
     k = rng.choice(["int", "str", "float", "list", "dict", "union", "tuple", "opt"])
     nm = dyn.fresh("Ru")
@@ -72,8 +103,11 @@ def gen_jobs(rng, ncls, nrules):
     from utype.specs.json_schema.generator import JsonSchemaGenerator
     from utype.utils.encode import JSONEncoder
     jobs, meta = [], []
-    for _ in range(ncls):
-        name, src, fields, okw = fieldgen.declare(rng) if rng.random() < 0.6 else fieldgen.declare_small(rng)
+    for ci in range(ncls + ncls // 3):
+        if ci >= ncls:
+            name, src, fields, okw = mode_class(rng)
+        else:
+            name, src, fields, okw = fieldgen.declare(rng) if rng.random() < 0.6 else fieldgen.declare_small(rng)
         K = dyn.get(name)
         for output in (False, True):
             try:
@@ -123,8 +157,11 @@ def structure_suite(res, rng, ncls, per=120):
     world.encoder = lambda: dcsuite.InstEncoder(classes=dict(world.classes), objects=world.objects)
     lines, srcs = [], []
     unrefl = 0
-    for _ in range(ncls):
-        name, src, fields, okw = fieldgen.declare(rng) if rng.random() < 0.6 else fieldgen.declare_small(rng)
+    for ci in range(ncls + ncls // 3):
+        if ci >= ncls:
+            name, src, fields, okw = mode_class(rng)
+        else:
+            name, src, fields, okw = fieldgen.declare(rng) if rng.random() < 0.6 else fieldgen.declare_small(rng)
         K = dyn.get(name)
         try:
             cid = world.cid(K)
